@@ -495,7 +495,7 @@ fn as_multiset(o: &Obs) -> Result<Vec<(String, String)>, String> {
     o.clone().map(|mut v| {
         // values are compared modulo member order as well
         for x in v.iter_mut() {
-            if let Ok(val) = serde_json::from_str::<Value>(&x.1) {
+            if let Ok(val) = crate::imp::json_unbounded(&x.1) {
                 x.1 = serde_json::to_string(&sorted_members(&val)).unwrap();
             }
         }
@@ -556,6 +556,12 @@ pub fn run(tier: &str) -> i32 {
     panel.extend(crate::gen::docs::panel());
     panel.push(json!([1, 1.0, 1.5, -1, 0, 100, 1e2, "1", "a", true, null, [1], [1.0], {"a": 1}, {"a": 1.0}]));
     panel.retain(|d| !has_big_u64(d));
+    // deeper than a parser accepts / wide around powers of two
+    panel.extend(crate::gen::docs::deep_docs(false).into_iter().skip(9).step_by(11).take(2));
+    for n in [64usize, 65, 257] {
+        panel.push(Value::Array((0..n).map(|i| if i % 4 == 0 { json!({"a": i, "b": [i]}) } else { json!(i % 3) }).collect()));
+        panel.push(Value::Object((0..n).map(|i| (if i == 3 { "a".to_string() } else { format!("k{}", i) }, if i % 4 == 0 { json!([i, "x"]) } else { json!(i % 3) })).collect()));
+    }
     for d in &panel {
         if AltA::from_json(d).to_json() != *d || AltB::from_json(d).to_json() != *d || AltS::from_json(d).to_json() != *d {
             eprintln!("MACHINERY: a view does not round-trip {}", d);
